@@ -158,7 +158,8 @@ TailBytes(c) == c.dir + c.B + MaxSeq(c.dat)
 \*   e.target, e.k (limit on the file size, -1 none), e.ret ("ok","err","panic"),
 \*   e.complete (the path is a regular file that an independent reader accepts as a zip),
 \*   e.before / e.disk (part name, canonical digest) of ToBytes-just-before / of the file,
-\*   e.tb (ToBytes-just-before returned "ok"/"err"),
+\*   e.tb (that ToBytes returned "ok"/"err"), e.tbwhen ("before"; "after" where the harness took
+\*   the serialisation just after an unlimited call instead, so that no ToBytes precedes the call),
 \*   e.n0, e.dirstart, e.cmax: length, start of the central directory and largest compressed
 \*   entry of an unfaulted save of the same document (sizes vary a little from call to call)
 \* =========================================================================
@@ -168,8 +169,6 @@ Slack    == 512       \* call-to-call variation of the package length (map order
 
 PartSet(s) == {<<s[i].n, s[i].h>> : i \in 1..Len(s)}
 Faithful(e) == e.tb = "ok" /\ PartSet(e.disk) = PartSet(e.before) /\ Len(e.disk) = Len(e.before)
-
-TClass(t) == IF Regular(t) THEN "regular" ELSE t
 
 \* expected return of the intended protocol for the observed call; "any" inside the
 \* uncertainty band around the package length
@@ -191,11 +190,11 @@ Phase(e) ==
             THEN "fault-before-close" ELSE "fault-at-close"
 
 Viol_Save(e) ==
-  LET who == <<e.via, TClass(e.target)>> IN
+  LET who == <<e.via, e.target>> IN
   IF e.ret = "panic" THEN {who \o <<"panic">>}
   ELSE
        (IF e.ret = "ok" /\ ~e.complete THEN {who \o <<"ret-nil", "file-incomplete", Phase(e)>>} ELSE {})
-  \cup (IF e.ret = "ok" /\ e.complete /\ ~Faithful(e) THEN {who \o <<"ret-nil", "parts-differ", Phase(e)>>} ELSE {})
+  \cup (IF e.ret = "ok" /\ e.complete /\ ~Faithful(e) THEN {who \o <<"ret-nil", "parts-differ", "tobytes-" \o e.tbwhen, Phase(e)>>} ELSE {})
   \cup (IF e.ret = "err" /\ e.tb = "ok" /\ ObsExpRet(e) = "nil" THEN {who \o <<"ret-err", "nothing-failed", Phase(e)>>} ELSE {})
 
 \* the fault the harness meant to inject did not happen (machinery, not a verdict)
